@@ -122,6 +122,35 @@ func variable.Compute
   loop 1 invariant forall i Int :: 0 <= i && i < len(registeredCallbacks) ==> registeredCallbacks[i] != nil && unlocked(registeredCallbacks[i].executionMutex)
   ensures unlocked(v.updateOrderMutex)
 
+-- the convenience writers are writes like any other: Init goes through Set, Set goes through Compute with a function that
+-- yields the given value - the value never changes behind the subscribers' back (not even "while the variable is still
+-- being constructed": Init is part of the public interface and can be called at any time)
+-- (checked for these statements only - opt only-ghost-asserts)
+func variable.Set$1
+  instantiate Type: int
+  requires newValue != nil
+  ensures r0 == *newValue
+func variable.Set
+  instantiate Type: int
+  opt only-ghost-asserts
+  requires v != nil
+  modifies everything
+  ghost local through Bool       -- the write went through Compute (ghost)
+  ghost at entry: through = false
+  ghost before call variable.Compute: assert arg0 == v
+  ghost after call variable.Compute: through = true
+  ghost at return: assert through
+func variable.Init
+  instantiate Type: int
+  opt only-ghost-asserts
+  requires v != nil
+  modifies everything
+  ghost local through Bool       -- the write went through Set (ghost)
+  ghost at entry: through = false
+  ghost before call variable.Set: assert arg0 == v && arg1 == value
+  ghost after call variable.Set: through = true
+  ghost at return: assert through
+
 func readableVariable.Get
   requires r != nil && unlocked(r.valueMutex)
   modifies monitor(r)
